@@ -133,7 +133,9 @@ func (en *Engine) VerifyFunction(fn *ssa.Function, fc *FuncContract, pc *PkgCont
 			if ee, ok := r.(execError); ok {
 				res.Errors = append(res.Errors, ee.msg)
 			} else {
-				panic(r)
+				// an internal error of the generator on this function: reported as "does not attach"
+				// (UNDECIDED), never as a verdict
+				res.Errors = append(res.Errors, fmt.Sprintf("internal error of the VC generator: %v", r))
 			}
 		}
 		res.Obligations = en.obls[start:]
